@@ -107,6 +107,13 @@ def step (_ : Unit) (line : String) : Unit × String :=
       | some ss => let (tbl, idx) := stringEncode ss
                    s!"ok {showStrs tbl} {showNatsE idx} {showNatsE (stringOffsets tbl 0)}"
       | none => "bad-op"
+    | ["string_enc_tbl", tbl, ss] =>
+      match parseStrs tbl, parseStrs ss with
+      | some tbl, some ss =>
+        match stringEncodeWith tbl ss with
+        | .ok idx => "ok " ++ showNatsE idx
+        | .error e => "ERR:" ++ e.toString
+      | _, _ => "bad-op"
     | ["string_dec", tbl, idx] =>
       match parseStrs tbl, parseNats idx with
       | some tbl, some idx =>
